@@ -44,6 +44,9 @@ type ostep struct {
 	G    int    `json:"g,omitempty"`    // goroutine id
 	Kind string `json:"kind,omitempty"` // rlock: hold (release after D ms) | grace (release when told to stop) | late (D ms after being told) | precancelled
 	D    int    `json:"d,omitempty"`    // ms
+	// NoWait: the script goes on with the next step at once, without bringing the bubble to rest first (the next
+	// step then races this one, e.g. a parent cancel issued concurrently with the RLock call)
+	NoWait bool `json:"nowait,omitempty"`
 }
 
 type scenario struct {
@@ -221,6 +224,7 @@ func (r *gatedRun) runSection(g int, s section) {
 		if a, ok := r.api.(cmapAPI); ok {
 			r.rec.ev("delete", tv.M{"g": g, "key": s.Key})
 			a.m.Delete(s.Key)
+			r.rec.ev("delete_ret", tv.M{"g": g})
 		}
 		return
 	}
@@ -352,9 +356,16 @@ func (r *gatedRun) choices(clients [][]section) []choice {
 		cs = append(cs, choice{name: fmt.Sprintf("go:g%d:%s", g, p.Point), w: w, do: func() { r.ctl.Release(p) }})
 	}
 	infl := r.inflight()
+	// a plain Delete (issued at rest) stays alone until it has returned: it parks at cmap.delete.begin
+	deleting := false
+	for i := range clients {
+		if r.tasks[i] != nil && !r.tasks[i].Done() && r.next[i] > 0 && clients[i][r.next[i]-1].Op == "delete" {
+			deleting = true
+		}
+	}
 	for i := range clients {
 		i := i
-		if r.next[i] >= len(clients[i]) || (r.tasks[i] != nil && !r.tasks[i].Done()) {
+		if deleting || r.next[i] >= len(clients[i]) || (r.tasks[i] != nil && !r.tasks[i].Done()) {
 			continue
 		}
 		s := clients[i][r.next[i]]
@@ -491,7 +502,8 @@ func (r *gatedRun) drive(clients [][]section, prefix []string, maxSteps int) err
 		var c *choice
 		if k := len(r.schedule); k < len(prefix) && !r.offScript {
 			for i := range cs {
-				if cs[i].name == prefix[k] {
+				// "go:g1:*" stands for whatever point g1 is parked at
+				if c == nil && (cs[i].name == prefix[k] || (strings.HasSuffix(prefix[k], ":*") && strings.HasPrefix(cs[i].name, strings.TrimSuffix(prefix[k], "*")))) {
 					c = &cs[i]
 				}
 			}
